@@ -196,7 +196,7 @@ theorem qd_handleFind (s : Stack) (e : SDEntry) (a : Addr) (mc : Bool) (hi : QD 
   unfold handleFind; simp only []
   split; exact hi
   split
-  · exact qd_foldl _ (fun X i hX => qd_callLater _ _ _ rfl hX) _ _ (qd_draw _ _ _ hi)
+  · exact qd_foldl _ (fun X i hX => qd_callLater (X.logAnswer _ _ _) _ _ rfl hX) _ _ (qd_draw _ _ _ hi)
   · exact qd_foldl _ (fun X i hX => qd_callSoon X _ hX) _ _ hi
 
 theorem qd_expiredSub (s : Stack) (i : Nat) (a : Addr) (k : SubKey) (hi : QD s) : QD (s.expiredSub i a k) := by
